@@ -35,10 +35,11 @@ VIA = C.Kind("via-running-bridge", impl=_impl_bridge, model=lambda a: "dgram " +
 
 def _impl_thrice(a):
     """the same broadcast three times in a row through one running bridge: three deliveries, each the device described"""
-    out = BH.run_bridge_sequence(1, [(0, a["dgram"])] * 3, burst=True)      # one after the other, nothing in between
+    n = a.get("times", 3)
+    out = BH.run_bridge_sequence(1, [(0, a["dgram"])] * n, burst=True)      # one after the other, nothing in between
     got = [] if out == "-" else out.split(" | ")
-    if len(got) != 3 or len(set(got)) != 1:
-        return f"{len(got)}-deliveries-for-3-identical-broadcasts"
+    if len(got) != n or len(set(got)) != 1:
+        return f"{len(got)}-deliveries-for-{n}-identical-broadcasts"
     return "device " + got[0][2:]
 
 
@@ -92,6 +93,8 @@ def streams(ctx):
     ctx.run_cases(VIA, "through-a-running-bridge-on-loopback", items, exhaustive=False, sample_every=20)
     items = B.encode_all([B.gen_device(rng) for _ in range(ctx.n(15, 200))])
     ctx.run_cases(THRICE, "the-same-broadcast-three-times-in-a-row", items, exhaustive=False, sample_every=7)
+    # a bridge that has been running for a while: the 130th broadcast is decoded and delivered like the first
+    ctx.run_cases(THRICE, "the-same-broadcast-130-times-in-a-row", [dict(x, times=130) for x in items[:ctx.n(3, 12)]], exhaustive=False)
     # a broadcast says the same on a host in any zone (remaining time and auto shutdown are durations, not clock times)
     import apiharness as H
     try:
